@@ -720,6 +720,37 @@ func pemBundles(r *ev.Run, pool [][]byte) {
 			} else {
 				r.Count("PEM trailing garbage rejected", 1)
 			}
+			// intact PEM armour around damaged DER (a byte appended inside the block, or the DER cut short): the bundle is refused,
+			// wherever in it the damaged block sits — not returned without it
+			if len(want) > 0 {
+				pos := c.Rand.Intn(len(want) + 1)
+				var b3 bytes.Buffer
+				for j := 0; j <= len(want); j++ {
+					if j == pos {
+						d := want[c.Rand.Intn(len(want))]
+						if c.Rand.Intn(2) == 0 {
+							d = append(append([]byte{}, d...), 0x00)
+						} else {
+							d = d[:len(d)-1-c.Rand.Intn(8)]
+						}
+						pem.Encode(&b3, &pem.Block{Type: "CERTIFICATE", Bytes: d})
+					}
+					if j < len(want) {
+						pem.Encode(&b3, &pem.Block{Type: "CERTIFICATE", Bytes: want[j]})
+					}
+				}
+				r.Eval(1)
+				if g3, e3 := utils.ParsePEMCertificates(b3.Bytes()); e3 == nil {
+					r.Violation(c, "pem-bundle-with-damaged-certificate-accepted", fmt.Sprintf("block %d of %d holds DER with trailing data or cut short; ParsePEMCertificates returned %d certificates and no error", pos, len(want)+1, len(g3)), rec)
+				} else {
+					r.Count("PEM bundles with one damaged certificate refused", 1)
+				}
+				if pos > 0 {
+					if one, e4 := utils.ParsePEMCertificate(b3.Bytes()); e4 == nil {
+						r.Violation(c, "pem-bundle-with-damaged-certificate-accepted:single-certificate-entry-point", fmt.Sprintf("ParsePEMCertificate returned a certificate (%d bytes) although a later block of the input is damaged", len(one.Raw)), rec)
+					}
+				}
+			}
 			// the single-certificate entry point sees the same input the same way
 			if one, e3 := utils.ParsePEMCertificate(d2); e3 == nil {
 				r.Violation(c, "pem-trailing-garbage-accepted:single-certificate-entry-point", fmt.Sprintf("garbage=%q; ParsePEMCertificate returned a certificate (%d bytes) rec=%v", garbage, len(one.Raw), rec), rec)
